@@ -5,3 +5,5 @@ import Compress.XFlate.Index
 import Compress.XFlate.Reader
 import Compress.Bits
 import Compress.Meta.Codec
+import Compress.XFlate.Open
+import Compress.XFlate.ReaderSpec
